@@ -149,6 +149,8 @@ def cfg_file_text(c):
     return ("\n".join(lines) + "\n").encode("utf-8", "surrogateescape")
 
 def argv_env(case):
+    if case.get("raw_argv") is not None:      # outside the model: the argument vector as given (robustness-only cases)
+        return [s_(a) for a in case["raw_argv"]], dict({"TZ": "UTC"}, **{k: s_(v) for k, v in (case.get("raw_env") or {}).items()})
     g = []
     if case.get("f_db") is not None: g += ["-d", s_(case["f_db"])]
     if case.get("f_log") is not None: g += ["-l", s_(case["f_log"])]
@@ -241,6 +243,8 @@ def run_cli_case(impl, case, workdir, timeout=20, cover=False):
         err = TS.sub(b"", p.stderr).decode("utf-8", "surrogateescape")
         if p.returncode == 0: status = "ok"
         elif p.returncode == 1: status = "fail:" + classify_error(err)
+        elif p.returncode > 1 and not any(mark in p.stderr for mark in (b"panic:", b"fatal error:", b"goroutine ", b"SIGSEGV", b"runtime error")):
+            status = "fail:exit%d:%s" % (p.returncode, classify_error(err))      # an error message with another non-zero status (urfave/cli's own exit codes)
         else: status = "crash:rc=%s" % p.returncode
         return dict(status=status, stdout=p.stdout, raw_err=err, rc=p.returncode)
     finally:
